@@ -492,4 +492,131 @@ theorem Hwba.toHsla_hue_congr (w : Hwba Rat) (h1 h2 : Rat)
     ({ w with h := h1 } : Hwba Rat).toHsla CQuirks.spec = ({ w with h := h2 } : Hwba Rat).toHsla CQuirks.spec := by
   simp only [Hwba.toHsla, Hsla.new, e]
 
+/-- `deg_mod` differs from its argument by a whole number of turns -/
+theorem degMod_int (v : Rat) : ∃ n : Int, degMod CQuirks.spec v = v - 360 * (n : Rat) := by
+  unfold degMod
+  simp only [CQuirks.spec, Bool.false_eq_true, if_false]
+  have hr : CExtra.fmod v (360 : Rat) = v - 360 * ((ratTrunc (v / 360) : Int) : Rat) := rfl
+  by_cases h : CExtra.fmod v (360 : Rat) < 0
+  · rw [if_pos h]
+    refine ⟨ratTrunc (v / 360) - 1, ?_⟩
+    rw [hr]; push_cast; ring
+  · rw [if_neg h, abs_of_nonneg' _ (not_lt.mp h)]
+    exact ⟨ratTrunc (v / 360), hr⟩
+
+/-- `deg_mod` is periodic: adding a full turn changes nothing, for EVERY rational angle -/
+theorem degMod_periodic (x : Rat) : degMod CQuirks.spec (x + 360) = degMod CQuirks.spec x := by
+  obtain ⟨n1, e1⟩ := degMod_int (x + 360)
+  obtain ⟨n2, e2⟩ := degMod_int x
+  have r1 := degMod_spec_range CQuirks.spec rfl (x + 360)
+  have r2 := degMod_spec_range CQuirks.spec rfl x
+  have hd : degMod CQuirks.spec (x + 360) - degMod CQuirks.spec x = 360 * ((1 - n1 + n2 : Int) : Rat) := by
+    rw [e1, e2]; push_cast; ring
+  have hlt : ((1 - n1 + n2 : Int) : Rat) < 1 := by
+    have : 360 * ((1 - n1 + n2 : Int) : Rat) < 360 := by rw [← hd]; linarith
+    linarith
+  have hgt : (-1 : Rat) < ((1 - n1 + n2 : Int) : Rat) := by
+    have : -360 < 360 * ((1 - n1 + n2 : Int) : Rat) := by rw [← hd]; linarith
+    linarith
+  have h1 : (1 - n1 + n2 : Int) < 1 := by exact_mod_cast hlt
+  have h2 : (-1 : Int) < (1 - n1 + n2 : Int) := by exact_mod_cast hgt
+  have hz : (1 - n1 + n2 : Int) = 0 := by omega
+  rw [hz] at hd
+  simp at hd
+  linarith
+
+
+/-- the code before fix a02d8f5: only the `max_min_largest` deviation switched on -/
+def qTie : CQuirks := { CQuirks.spec with maxTieRedGreen := true }
+
+theorem maxTie_core (a b c : Rat) (hx : ¬ (a = b ∧ c < a)) :
+    maxOf qTie a b c = maxOf CQuirks.spec a b c ∧
+    (maxOf CQuirks.spec a b c ≠ minOf a b c →
+      (match largestOf qTie a b c with
+        | 0 => (b - c) / (maxOf CQuirks.spec a b c - minOf a b c) + (if b < c then 6 else 0)
+        | 1 => (c - a) / (maxOf CQuirks.spec a b c - minOf a b c) + 2
+        | _ => (a - b) / (maxOf CQuirks.spec a b c - minOf a b c) + 4) = hueK a b c) := by
+  by_cases h0 : a > b ∧ a > c
+  · -- strict red maximum: both pick index 0
+    have hT : largestOf qTie a b c = 0 := by simp [largestOf, qTie, h0]
+    have hS : largestOf CQuirks.spec a b c = 0 := by
+      simp [largestOf, CQuirks.spec, h0.1.le, h0.2.le]
+    refine ⟨by simp [maxOf, hT, hS], fun _ => ?_⟩
+    simp [hueK, hT, hS]
+  · by_cases h1 : b > a ∧ b > c
+    · have hT : largestOf qTie a b c = 1 := by simp [largestOf, qTie, h0, h1]
+      have hS : largestOf CQuirks.spec a b c = 1 := by
+        have : ¬ (a ≥ b ∧ a ≥ c) := fun h => by linarith [h.1, h1.1]
+        simp [largestOf, CQuirks.spec, this, h1.2.le]
+      refine ⟨by simp [maxOf, hT, hS], fun _ => ?_⟩
+      simp [hueK, hT, hS]
+    · have hT : largestOf qTie a b c = 2 := by simp [largestOf, qTie, h0, h1]
+      have hmT : maxOf qTie a b c = c := by simp [maxOf, hT]
+      -- c is a maximum: otherwise red = green > blue, which is excluded
+      have hca : a ≤ c := by
+        by_contra hh; rw [not_le] at hh
+        rcases lt_trichotomy a b with hab | hab | hab
+        · exact h1 ⟨hab, by linarith⟩
+        · exact hx ⟨hab, hh⟩
+        · exact h0 ⟨hab, hh⟩
+      have hcb : b ≤ c := by
+        by_contra hh; rw [not_le] at hh
+        rcases lt_trichotomy a b with hab | hab | hab
+        · exact h1 ⟨hab, hh⟩
+        · exact hx ⟨hab, by linarith⟩
+        · exact h0 ⟨hab, by linarith⟩
+      have hge := le_maxOf a b c
+      have hmS : maxOf CQuirks.spec a b c = c := by
+        apply le_antisymm
+        · rcases maxOf_mem CQuirks.spec a b c with e | e | e <;> rw [e] <;> linarith
+        · exact hge.2.2
+      refine ⟨by rw [hmT, hmS], fun hne => ?_⟩
+      rw [hT]
+      simp only []
+      rw [hmS] at hne ⊢
+      have hd : c - minOf a b c ≠ 0 := sub_ne_zero.mpr hne
+      -- which index does the specified code pick?
+      by_cases s0 : a ≥ b ∧ a ≥ c
+      · have hS : largestOf CQuirks.spec a b c = 0 := by simp [largestOf, CQuirks.spec, s0]
+        have eac : a = c := le_antisymm hca s0.2
+        have hmn : minOf a b c = b := by unfold minOf cmin; split_ifs <;> linarith [s0.1]
+        have hbc : b < c := lt_of_le_of_ne hcb (fun e => hne (by rw [hmn, e]))
+        simp only [hueK, hS, hmS, hmn, hbc, if_true]
+        rw [hmn] at hd
+        rw [eac]; field_simp; ring
+      · by_cases s1 : b ≥ c
+        · have hS : largestOf CQuirks.spec a b c = 1 := by simp [largestOf, CQuirks.spec, s0, s1]
+          have ebc : b = c := le_antisymm hcb s1
+          have hac : a < c := by
+            by_contra hh; rw [not_lt] at hh; exact s0 ⟨by linarith, hh⟩
+          have hmn : minOf a b c = a := by unfold minOf cmin; split_ifs <;> linarith
+          simp only [hueK, hS, hmS, hmn]
+          rw [hmn] at hd
+          rw [ebc]; field_simp; ring
+        · have hS : largestOf CQuirks.spec a b c = 2 := by simp [largestOf, CQuirks.spec, s0, s1]
+          simp only [hueK, hS, hmS]
+
+
+theorem Hsla.new_qTie (h s l a : Rat) (f : Bool) :
+    Hsla.new qTie h s l a f = Hsla.new CQuirks.spec h s l a f := rfl
+
+/-- unless red = green > blue, `Rgba.toHsla` with the old `max_min_largest` is the specified one -/
+theorem Rgba.toHsla_qTie (c : Rgba Rat) (hx : ¬ (c.r / 255 = c.g / 255 ∧ c.b / 255 < c.r / 255)) :
+    c.toHsla qTie = c.toHsla CQuirks.spec := by
+  obtain ⟨hm, hk⟩ := maxTie_core (c.r / 255) (c.g / 255) (c.b / 255) hx
+  by_cases hne : maxOf CQuirks.spec (c.r / 255) (c.g / 255) (c.b / 255) = minOf (c.r / 255) (c.g / 255) (c.b / 255)
+  · have hb : (maxOf CQuirks.spec (c.r / 255) (c.g / 255) (c.b / 255) ==
+        minOf (c.r / 255) (c.g / 255) (c.b / 255)) = true := by rw [beq_iff_eq]; exact hne
+    unfold Rgba.toHsla
+    simp only [hm, hb, if_true, Hsla.new_qTie]
+  · have hb : (maxOf CQuirks.spec (c.r / 255) (c.g / 255) (c.b / 255) ==
+        minOf (c.r / 255) (c.g / 255) (c.b / 255)) = false := by rw [beq_eq_false_iff_ne]; exact hne
+    rw [Rgba.toHsla_nongray c hne]
+    unfold Rgba.toHsla
+    simp only [hm, hb, Bool.false_eq_true, if_false, Hsla.new_qTie]
+    congr 1
+    congr 1
+    exact hk hne
+
+
 end Color
